@@ -251,6 +251,10 @@ func c06One(rep *Report, f *Fixture, c c06Case) {
 			if err := ch.T.Send(p); err != nil {
 				return
 			}
+			if c.ID%3 == 1 && i%4 == 2 && c.Coalesce <= 1 {
+				// keep-alive packets between the data packets (they carry nothing and change nothing)
+				ch.T.Send(Keepalive())
+			}
 			if c.Pace && i%7 == 3 {
 				time.Sleep(time.Duration(rnd.Intn(300)) * time.Microsecond)
 			}
